@@ -113,6 +113,15 @@ def run(db: ProgramDB, chk) -> None:
             restored_from[a] = (v.value.id, v.attr)
         else:
             restored_other[a] = v
+    # the reflective form of the same copy: for f in dataclasses.fields(_CPGraphData): setattr(inst, f.name, getattr(src, f.name))
+    for lp_ in [n for n in ast.walk(restore) if isinstance(n, ast.For) and isinstance(n.target, ast.Name)]:
+        it_ = lp_.iter
+        if isinstance(it_, ast.Call) and call_name(it_).split(".")[-1] == "fields" and it_.args and H.name_id(it_.args[0]) == "_CPGraphData" and len(lp_.body) == 1:
+            fv = lp_.target.id
+            r_ = H.match(f"setattr({inst}, {fv}.name, getattr($src, {fv}.name))", lp_.body[0])
+            if r_ is not None:
+                for fld_ in fields:
+                    restored_from[fld_] = (r_["__mv_src"], fld_)
     pick_vars = {src for src, _ in restored_from.values()}
     if len(pick_vars) != 1:
         raise AnalysisError(f"restored attributes are copied from {sorted(pick_vars)}; expected one unpickled object")
@@ -268,7 +277,7 @@ def run(db: ProgramDB, chk) -> None:
             cur = m.parent.get(id(cur))
     zf = [c for c in H.calls(restore) if call_name(c).endswith("ZipFile")]
     chk.ob("C19.R2-artefacts", "restore extracts the given archive unconditionally before reading the artefacts", len(ex) == 1 and not guards and len(zf) == 1 and
-           H.name_id(zf[0].args[0]) == H.param_names(restore)[0] and ex[0].lineno < min(c.lineno for c in H.calls(restore) if call_name(c) in ("open", "pd.read_csv")), m.loc(restore),
+           H.name_id(zf[0].args[0]) == H.param_names(restore)[0] and all(H.before(ex[0], c) for c in H.calls(restore, nested=False) if call_name(c) in ("open", "pd.read_csv")), m.loc(restore),
            found={"extract": [ast.unparse(c) for c in ex], "guards": guards}, accepted="zipf.extractall(...) not under any condition",
            why="skipping extraction when the directory already exists restores the files of an earlier archive saved under the same name")
     # node-link convention
